@@ -28,7 +28,7 @@ fn main() {
     if sub == "stress" || sub == "teardown" || sub == "spawnids" {
         tracing::subscriber::set_global_default(stress::StressCapture).expect("subscriber");
     } else {
-        let cap = log::Capture::new(vec![std::any::type_name::<scripted::Msg>()], false);
+        let cap = log::Capture::new(vec![std::any::type_name::<scripted::Msg>(), std::any::type_name::<scripted::JMsg>()], false);
         tracing::subscriber::set_global_default(cap).expect("subscriber");
     }
     match sub {
